@@ -362,6 +362,23 @@ class OpsMixin:
                         if run.decide(self.set_contains(b, x), "in both"):
                             out.append(x)
                     return self.new_set(out)
+        if isinstance(a, VRef) and isinstance(b, VRef) and a.kind == b.kind == "set":
+            ra, rb = run.rec(a.oid), run.rec(b.oid)
+            es = None
+            for r_ in (ra, rb):
+                if not r_.concrete:
+                    es = r_.dom.sort().domain()
+            if es is not None:
+                x = z3.Const("x!setop", es)
+                ma = self.set_contains(a, self.wrap(ra.etype if not ra.concrete else rb.etype, x))
+                mb = self.set_contains(b, self.wrap(rb.etype if not rb.concrete else ra.etype, x))
+                body = {ast.Sub: z3.And(ma, z3.Not(mb)), ast.BitOr: z3.Or(ma, mb), ast.BitAnd: z3.And(ma, mb)}.get(type(op))
+                if body is not None:
+                    nm = run.fresh_name("setop")
+                    sz = z3.Int(nm + "#size")
+                    run.assume(sz >= 0)
+                    nr = SetRec(None, ra.etype if not ra.concrete else rb.etype, z3.Lambda([x], body), sym=nm, size=sz)
+                    return VRef(run.alloc(nr), "set")
         if isinstance(a, VNone) or isinstance(b, VNone):
             raise E.PyExc(VExc("TypeError"), f"operand None for {type(op).__name__}")
         if isinstance(a, VAny) or isinstance(b, VAny):
@@ -604,16 +621,22 @@ class OpsMixin:
             it = self.eval(g.iter, frame)
         except E.Unsupported:
             return None
-        if isinstance(it, VRef) and it.kind == "list" and not self.run.rec(it.oid).concrete:
+        if isinstance(it, VRef) and it.kind in ("list", "set", "dict") and not self.run.rec(it.oid).concrete:
             return VGen(node, frame, it)
         return None
 
     def e_SetComp(self, node, frame):
+        sym = self.try_symbolic_comp(node, frame)
+        if sym is not None:
+            return sym
         out = []
         self.comp_iter(node.generators, frame, lambda f: out.append(self.eval(node.elt, f)))
         return self.new_set(out)
 
     def e_DictComp(self, node, frame):
+        sym = self.try_symbolic_comp(node, frame)
+        if sym is not None:
+            return sym
         out = []
         self.comp_iter(node.generators, frame, lambda f: out.append((self.eval(node.key, f), self.eval(node.value, f))))
         return self.new_dict(out)
